@@ -170,7 +170,7 @@ type forged struct {
 	msgType  specqbft.MessageType
 }
 
-var sigKinds = []string{"aggregate-of-listed-distinct-members", "aggregate-with-multiplicity", "aggregate-of-another-subset", "single-share", "garbage-point", "zero"}
+var sigKinds = []string{"aggregate-of-listed-distinct-members", "aggregate-with-multiplicity", "aggregate-of-another-subset", "single-share", "garbage-point", "zero", "aggregate-of-the-listed-committee-members-only"}
 var dataKinds = []string{"matching", "other-value", "empty"}
 
 func signerLists(thorough bool) [][]spectypes.OperatorID {
@@ -203,6 +203,12 @@ func signerLists(thorough bool) [][]spectypes.OperatorID {
 			l := []spectypes.OperatorID{1, 2, 3, 4}
 			l[pos] = bad
 			out = append(out, l)
+		}
+	}
+	// quorum-sized lists padded with one foreign / zero id at every position
+	for _, pair := range [][2]spectypes.OperatorID{{1, 2}, {2, 3}, {3, 4}, {4, 1}} {
+		for _, bad := range []spectypes.OperatorID{0, 5, 99} {
+			out = append(out, []spectypes.OperatorID{pair[0], pair[1], bad}, []spectypes.OperatorID{pair[0], bad, pair[1]}, []spectypes.OperatorID{bad, pair[0], pair[1]})
 		}
 	}
 	if thorough {
@@ -277,6 +283,18 @@ func build(c *qnet.Cfg, f forged) *specqbft.SignedMessage {
 		sig = c.SignMsg(1, nil, &specqbft.Message{MsgType: 7, Identifier: id}, nil).Signature // a valid point, unrelated message
 	case 5:
 		sig = make([]byte, 96)
+	case 6:
+		// only the genuine committee members among the listed ids sign (foreign / zero ids are
+		// padding): what a sub-quorum of real members can produce
+		seen := map[spectypes.OperatorID]bool{}
+		var d []spectypes.OperatorID
+		for _, s := range f.signers {
+			if _, member := c.KeySet.Shares[s]; member && !seen[s] {
+				seen[s] = true
+				d = append(d, s)
+			}
+		}
+		sig = agg(d)
 	}
 	return &specqbft.SignedMessage{Message: *m, Signers: f.signers, Signature: sig, FullData: data}
 }
